@@ -506,8 +506,119 @@ def origin_of(val, ref):
 
 
 # -- linalg.generic paths of hwpe_mult and alu (hard-coded value lists for the default configuration) -----------------------------
+def run_gemmini_case(case, res):
+    """Quantised matmul linalg.generic {library_call = "gemmini"} -> real convert-linalg-to-accfg -> the ten RoCC operand halves
+    compared by name: BOUNDS.rs2 = K/16 << 32 | J/16 << 16 | I/16 (A is IxK, B is KxJ), ADDRS_AB = start of A / B, ADDRS_DC = 0 /
+    start of C, STRIDES_* = row strides, BOUNDS.rs1 (paddings) = 0."""
+    out = []
+    m_, n_, k_ = case["mnk"]
+    pa, pb, pc = case["pad"]
+    oa, ob, oc = case["offsets"]
+    sa, sb, sc = k_ + pa, n_ + pb, n_ + pc
+
+    def ty(r, c_, el, st, off):
+        lay = f", strided<[{st}, 1], offset: {off}>" if (st != c_ or off) else ""
+        return f"memref<{r}x{c_}x{el}{lay}>"
+
+    ta, tb, tc = ty(m_, k_, "i8", sa, oa), ty(k_, n_, "i8", sb, ob), ty(m_, n_, "i32", sc, oc)
+    c = make_ctx()
+    acc = c.get_acc("gemmini")
+    accop = acc.generate_acc_op()
+    text = f"""builtin.module {{
+  func.func @main(%a: {ta}, %b: {tb}, %c: {tc}) {{
+    %z = arith.constant 0 : i32
+    "linalg.generic"(%a, %b, %z, %z, %c) <{{indexing_maps = [affine_map<(d0, d1, d2) -> (d0, d2)>, affine_map<(d0, d1, d2) -> (d2, d1)>, affine_map<(d0, d1, d2) -> ()>, affine_map<(d0, d1, d2) -> ()>, affine_map<(d0, d1, d2) -> (d0, d1)>], iterator_types = [#linalg.iterator_type<parallel>, #linalg.iterator_type<parallel>, #linalg.iterator_type<reduction>], operandSegmentSizes = array<i32: 4, 1>, library_call = "gemmini"}}> ({{
+    ^bb0(%x: i8, %y: i8, %za: i32, %zb: i32, %o: i32):
+      "linalg.yield"(%o) : (i32) -> ()
+    }}) : ({ta}, {tb}, i32, i32, {tc}) -> ()
+    func.return
+  }}
+}}
+"""
+    res["evaluations"] += 1
+    try:
+        m = parse(c, text)
+        m.body.block.insert_op_before(accop, m.body.block.first_op)
+        m.verify()
+        run_passes_limited(c, m, "convert-linalg-to-accfg", 5)
+        m.verify()
+    except PassTimeout:
+        R.reject(res, "PassTimeout")
+        return out
+    except Exception as e:
+        R.reject(res, e)
+        return out
+    setups = [op for op in m.walk() if op.name == "accfg.setup"]
+    if len(setups) != 1:
+        R.reject(res, f"no-single-setup:{len(setups)}")
+        return out
+    declared = list(accop.fields.data.keys())
+    names = [x.data for x in setups[0].param_names.data]
+    res["programs"] += 1
+    if names != declared or len(setups[0].values) != len(declared):
+        out.append({"kind": "value-count-differs-from-field-count", "detail": f"{len(setups[0].values)} values / {len(names)} names / {len(declared)} declared", "case": case, "info": {"cls": "gemmini"}})
+        return out
+    ptrs = [0x2000_0000, 0x2100_0000, 0x2200_0000]
+    descs = [
+        {"ptr": ptrs[0], "off": oa, "sizes": [m_, k_], "strides": [sa, 1]},
+        {"ptr": ptrs[1], "off": ob, "sizes": [k_, n_], "strides": [sb, 1]},
+        {"ptr": ptrs[2], "off": oc, "sizes": [m_, n_], "strides": [sc, 1]},
+    ]
+
+    class M(AccfgMachine):
+        def __init__(self, mod):
+            super().__init__(mod)
+            self.handlers["memref.extract_aligned_pointer_as_index"] = lambda op: self.set_results(op, [self.get(op.operands[0])["ptr"]])
+            self.handlers["memref.extract_strided_metadata"] = self._meta
+
+        def _meta(self, op):
+            d = self.get(op.operands[0])
+            self.set_results(op, [d, d["off"], *d["sizes"], *d["strides"]][: len(op.results)])
+
+    mach = M(m)
+    try:
+        mach.run_func("main", descs)
+    except (Unsupported, MachineError, UseBeforeDef, StepBudget) as e:
+        out.append({"kind": "emitted-program-fails", "detail": f"{type(e).__name__}: {e}"[:300], "case": case, "info": {"cls": "gemmini"}})
+        return out
+    launches = [e for e in mach.events if e[0] == "L"]
+    if len(launches) != 1:
+        out.append({"kind": "not-exactly-one-launch", "detail": f"{len(launches)} launches", "case": case, "info": {"cls": "gemmini"}})
+        return out
+    regs = launches[0][3]
+    P = "k_LOOP_WS_CONFIG_"
+    ref = {
+        P + "BOUNDS.rs1": 0,
+        P + "BOUNDS.rs2": ((k_ // 16) << 32) | ((n_ // 16) << 16) | (m_ // 16),
+        P + "ADDRS_AB.rs1": ptrs[0] + oa,
+        P + "ADDRS_AB.rs2": ptrs[1] + ob,
+        P + "ADDRS_DC.rs1": 0,
+        P + "ADDRS_DC.rs2": ptrs[2] + 4 * oc,
+        P + "STRIDES_AB.rs1": sa,
+        P + "STRIDES_AB.rs2": sb,
+        P + "STRIDES_DC.rs1": ("skip",),
+        P + "STRIDES_DC.rs2": sc,
+    }
+    res["compared"] += 1
+    R.bump(res, "linalg_path_setups_checked")
+    R.bump(res, "gemmini_setups_checked")
+    for f in declared:
+        want = ref.get(f, ("skip",))
+        got = regs.get(f)
+        R.bump(res, "fields_compared")
+        if isinstance(want, tuple):
+            continue
+        if isinstance(got, Poison) or got is None or wrap(got, 64) != wrap(want, 64):
+            out.append({"kind": "field-holds-value-with-another-meaning", "detail": f"[gemmini linalg path] {f} = {got} expected {want} (M,N,K = {case['mnk']})", "case": case, "info": {"cls": "gemmini", "field": f}})
+            return out
+    R.nontrivial(res, "linalg-path", "gemmini", tuple(case["mnk"]), tuple(case["pad"]), tuple(case["offsets"]))
+    return out
+
+
 def run_linalg_case(case, res):
     """linalg.generic {library_call} on 1-D memrefs -> real convert-linalg-to-accfg -> registers compared by name."""
+    if case.get("cls") == "gemmini":
+        return run_gemmini_case(case, res)
     out = []
     cls, n, offs = case["cls"], case["n"], case["offsets"]
     el = "i32" if cls == "hwpe" else "i64"
@@ -605,7 +716,12 @@ def run_linalg_case(case, res):
 
 def gen_case(rng):
     if rng.random() < 0.12:
-        cls = rng.choice(["hwpe", "alu"])
+        cls = rng.choice(["hwpe", "alu", "gemmini"])
+        if cls == "gemmini":
+            # quantised matmul generic on the RoCC accelerator: sizes in units of the 16x16 array, operands possibly windows of
+            # wider buffers (row stride > row length), byte offsets on the i8 operands
+            m, n_, k = (16 * rng.choice([1, 2, 3, 5]) for _ in range(3))
+            return {"linalg": True, "cls": "gemmini", "mnk": [m, n_, k], "pad": [rng.choice([0, 0, 16, 48]) for _ in range(3)], "offsets": [rng.choice([0, 0, 16, 64]), rng.choice([0, 0, 32]), rng.choice([0, 0, 8, 40])], "n": 0}
         n = rng.choice([4, 8, 12, 16, 20, 64, 100]) if cls == "hwpe" else rng.choice([4, 8, 12, 16, 20, 64])
         return {"linalg": True, "cls": cls, "n": n, "offsets": [rng.choice([0, 0, 4, 8]) for _ in range(3)]}
     cls = rng.choice(["alu", "gemmx", "gemmx", "xdma"])
